@@ -87,7 +87,7 @@ func stressWorkerMain(args []string) {
 	c := girc.New(girc.Config{Server: "irc.example.org", Port: 6667, Nick: "me", User: "me", Name: "me", AllowFlood: true,
 		RecoverFunc: func(c *girc.Client, e *girc.HandlerError) {}})
 	var stop, sendersOff int32
-	if mode == "stsack" {
+	if mode == "stsack" || mode == "kept" {
 		stop = 1 // a quiet scenario: only the library's own goroutines
 	}
 	var progress int64
@@ -310,6 +310,71 @@ func stressWorkerMain(args []string) {
 		time.Sleep(100 * time.Millisecond)
 		srv.Close()
 		c.Close()
+	case "kept":
+		// what a getter handed out belongs to the caller: a goroutine obtains the pointer-valued results as soon as the socket is up
+		// (before the welcome), keeps them and goes on reading through them while registration completes and traffic flows
+		cli, srv := net.Pipe()
+		done := make(chan error, 1)
+		go func() { done <- c.MockConnect(cli) }()
+		go func() {
+			rd := bufio.NewReader(srv)
+			for {
+				if _, err := rd.ReadString('\n'); err != nil {
+					return
+				}
+			}
+		}()
+		var up *time.Time
+		for i := 0; i < 3000 && up == nil; i++ {
+			if u, err := c.Uptime(); err == nil && u != nil {
+				up = u
+			} else {
+				time.Sleep(time.Millisecond)
+			}
+		}
+		var first time.Time
+		if up != nil {
+			first = *up
+		}
+		var changed int32
+		quit := make(chan struct{})
+		var rwg sync.WaitGroup
+		rwg.Add(1)
+		go func() {
+			defer rwg.Done()
+			for {
+				select {
+				case <-quit:
+					return
+				default:
+				}
+				if up != nil && !up.Equal(first) {
+					atomic.StoreInt32(&changed, 1)
+				}
+				time.Sleep(200 * time.Microsecond)
+			}
+		}()
+		for _, l := range []string{":srv 001 me :Welcome", ":srv 005 me NETWORK=x :are supported by this server", ":me!u@h JOIN #a", ":srv 353 me = #a :me @bob", "PING :kept"} {
+			srv.SetWriteDeadline(time.Now().Add(2 * time.Second))
+			srv.Write([]byte(l + "\r\n"))
+			time.Sleep(30 * time.Millisecond)
+			atomic.AddInt64(&progress, 1)
+		}
+		time.Sleep(100 * time.Millisecond)
+		close(quit)
+		rwg.Wait()
+		if up == nil {
+			fmt.Println("violation: Uptime() never succeeded on an established connection")
+		}
+		if atomic.LoadInt32(&changed) == 1 {
+			fmt.Println("violation: the time.Time that Uptime() handed out changed under the caller while the connection went on")
+		}
+		c.Close()
+		select {
+		case <-done:
+		case <-time.After(3 * time.Second):
+		}
+		srv.Close()
 	case "tags":
 		// message-tags switched on and off by the server while tagged events are being written
 		var lines []string
@@ -417,6 +482,12 @@ func init() {
 			c.R.Violation("stress12.crash", hin, fmt.Sprintf("%v: %s", werr, tailStr(out, 4000)), "", "the stress scenario crashed")
 			return
 		}
+		for _, l := range strings.Split(out, "\n") {
+			if strings.HasPrefix(l, "violation: ") {
+				c.R.Violation("stress12.kept_result", hin, strings.TrimPrefix(l, "violation: "), "", "a value handed out by a getter was modified by the library afterwards (shared memory the caller reads without any lock)")
+				return
+			}
+		}
 		files, _ := filepath.Glob(filepath.Join(dir, "race*"))
 		for _, f := range files {
 			b, _ := os.ReadFile(f)
@@ -453,7 +524,8 @@ func runC12(c *Ctx) {
 	c.run("stress12", map[string]string{"seed": "1", "procs": "4", "lines": "0", "mode": "connected"})
 	c.run("stress12", map[string]string{"seed": "1", "procs": "4", "lines": "0", "mode": "stsack"})
 	c.run("stress12", map[string]string{"seed": "1", "procs": "4", "lines": "120", "mode": "tags"})
-	n += 3
+	c.run("stress12", map[string]string{"seed": "1", "procs": "4", "lines": "0", "mode": "kept"})
+	n += 4
 	for _, mode := range []string{"stream", "closemid", "reconnect"} {
 		for _, procs := range []string{"1", "2", "16"} {
 			if c.Scale == 1 && (mode == "reconnect" && procs != "16" || mode == "closemid" && procs == "2") {
